@@ -38,6 +38,7 @@ def main():
     ap.add_argument("--n", type=int, default=400)
     ap.add_argument("--procs", type=int, default=8)
     ap.add_argument("--tier", default="quick")
+    ap.add_argument("--isolated", type=int, default=12)
     a = ap.parse_args()
     root = "/dev/shm" if os.path.isdir("/dev/shm") else tempfile.gettempdir()
     rc = 0
@@ -73,6 +74,30 @@ def main():
             for s in diff_hs[:3]:
                 print("   hashseed-dependent seed", s, rows["a"][s], rows["c"].get(s))
             if diff_same or verdict_hs:
+                rc = 1
+            # cold-start check: a seed executed alone, as the first run of a fresh interpreter
+            # (what a replay does), must give the same row as in the middle of a batch
+            iso_jobs = []
+            for i in range(per - 1, per - 1 - a.isolated, -1):
+                if i < 0:
+                    break
+                d = os.path.join(scratch, f"iso{i}")
+                os.makedirs(d)
+                out = os.path.join(d, "rows.json")
+                iso_jobs.append((out, launch(pid, i, i + 1, "7", out, a.tier)))
+            iso_bad = 0
+            for out, proc in iso_jobs:
+                proc.communicate(timeout=3600)
+                if not os.path.exists(out):
+                    iso_bad += 1
+                    continue
+                for r in json.load(open(out)):
+                    if rows["a"].get(r[0]) != r[1:]:
+                        iso_bad += 1
+                        print("   COLD-START DIFFERENCE seed", r[0], rows["a"].get(r[0]), r[1:])
+            print(f"{pid}: cold-start (seed alone in a fresh interpreter) vs in-batch: "
+                  f"{len(iso_jobs)} seeds, {iso_bad} differ")
+            if iso_bad:
                 rc = 1
         finally:
             shutil.rmtree(scratch, ignore_errors=True)
